@@ -41,6 +41,8 @@ for i in range(1, 21):
         t += ["CAUGHT at first pass: " + ", ".join(caught) + ".", ""]
     if pid in extras:
         t += ["ALSO (do this FIRST if it is a repair of /repo, within the first 20 minutes, so that stale patches can be re-ported in time):", extras[pid], ""]
+    t += ["NOTE: other owners may commit `fix:` repairs to /repo during the first 25 minutes of this round (lightpb MemoryDevice.UpdateBrightness honours update_mask; electricpb deleteMode also refuses the active mode under another spelling of its id; pkg/cmp time.go no longer panics on dynamicpb children; possibly Collection.Update/Add testing the empty id before the id interceptor). "
+          "After about 30 minutes run `git -C /repo log --oneline -6`, re-run your quick check on /repo, and if a tie breaks because your model or oracle mirrored the old behaviour, adapt it (model the fixed code). The lead re-ports stale kept patches; if `tools/seeded.py` reports 'patch does not apply' for one of yours, skip it.", ""]
     t += ["Then, if time remains, keep growing the proof (ROUND4_BRIEF.md task 2) from your own latest 'not covered' list. This is the LAST round of the session (about 70 minutes): "
           "leave your check green, fast (quick ≤ ~40 s on a calm machine) and quiet on every refactor; prefer robustness over new features in the last 25 minutes; "
           "update the manifest block of props/%s.json so that it is accurate." % pid, ""]
